@@ -555,7 +555,7 @@ func (lb *LoadBalancer) AddBackend(backendCfg config.BackendConfig) error {
 		IdleConnTimeout:     idleConnTimeout,
 
 		// Timeouts
-		TLSHandshakeTimeout:   10 * time.Second,
+		TLSHandshakeTimeout:   dialTimeout, // part of setting the connection up: bounded like the dial (10s by default)
 		ResponseHeaderTimeout: readTimeout,
 		ExpectContinueTimeout: 1 * time.Second,
 
